@@ -1,7 +1,8 @@
 ------------------------------ MODULE MC_C19 ------------------------------
 EXTENDS Point, Json
-Sig == <<Len(M), IF outside THEN "outside" ELSE "inside", qlev, IF origin = 0 THEN "origin0" ELSE IF origin > 0 THEN "origin+" ELSE "origin-">>
-Scenario == [prop |-> "C19", sig |-> Sig, n1 |-> N1, n2 |-> N2, mesh |-> M, origin |-> origin, qlev |-> qlev, qcell |-> qcell,
-             outside |-> outside, expect |-> IF outside THEN <<"err">> ELSE <<"cell", qlev, qcell>>]
+Sig == <<Len(M), IF outside THEN "outside" ELSE "inside", [i \in DOMAIN asked |-> asked[i].lev],
+         IF origin = 0 THEN "origin0" ELSE IF origin > 0 THEN "origin+" ELSE "origin-">>
+Scenario == [prop |-> "C19", sig |-> Sig, n1 |-> N1, n2 |-> N2, mesh |-> M, origin |-> origin, asked |-> asked,
+             outside |-> outside, expect |-> [i \in DOMAIN asked |-> IF asked[i].outside THEN <<"err">> ELSE <<"cell", asked[i].lev, asked[i].cell>>]]
 Emit == pc = "done" => PrintT(ToJson(Scenario))
 ==========================================================================
